@@ -13,6 +13,7 @@
 //! canonical reply that the model must reproduce.
 mod common;
 mod c20;
+mod mapped;
 mod canon;
 mod ueq;
 mod ord;
@@ -38,6 +39,7 @@ pub fn exec_line(line: &str, out: &mut Out) {
         "ord" => ord::exec(rest, out),
         "ueq" => ueq::exec(rest, out),
         "canon" => canon::exec(rest, out),
+        "mapped" => mapped::exec(rest, out),
         _ => ("bad-op".to_string(), false),
     }));
     match r {
@@ -89,6 +91,7 @@ fn real_main() {
             "C06" => obj::gen(&mut out, thorough, "C06"),
             "C14" => ord::gen(&mut out, thorough),
             "C15" => ueq::gen(&mut out, thorough),
+            "C11" => mapped::gen(&mut out, thorough),
             "C09" => canon::gen(&mut out, thorough),
             "C10" => canon::gen(&mut out, thorough),
             "C04" => print::gen(&mut out, thorough, "C04"),
